@@ -203,6 +203,7 @@ static struct {
     int nreg;
     int mru;
     int next_heap_id;
+    int reg_overflow; /* more heap blocks than MAXREG in one run: heap checking is switched off */
     /* arena */
     char *arena;
     size_t arena_off;
@@ -224,6 +225,8 @@ static struct {
     uint64_t viol_step;
     uint64_t team_hist[MAXT + 1];
 } G;
+
+#define IN_ARENA(a) ((uintptr_t)(a) >= (uintptr_t)G.arena && (uintptr_t)(a) < (uintptr_t)G.arena + ARENA_SIZE)
 
 static char *g_tstacks;
 static int g_inited;
@@ -446,6 +449,8 @@ static inline void check_access(uintptr_t a, int size, int rw) {
         return;
     }
     if (in_image(a))
+        return;
+    if (G.reg_overflow)
         return;
     /* nearest region, for the report */
     {
@@ -1014,6 +1019,8 @@ EXPORT void __tsan_vptr_read(void **a) { (void)a; }
         step_point();                                                                                                  \
         if (G.strict && G.in_call)                                                                                     \
             check_access((uintptr_t)(addr), (size), (rw));                                                             \
+        else if (IN_ARENA(addr))                                                                                       \
+            check_access((uintptr_t)(addr), (size), (rw)); /* lenient mode: the simulated heap is still exact */        \
     } while (0)
 
 #define TSAN_RW(N)                                                                                                     \
@@ -1037,7 +1044,7 @@ TSAN_RW(16)
 
 static void range_access(void *a, size_t n, int rw) {
     step_point();
-    if (G.strict && G.in_call && n) {
+    if (((G.strict && G.in_call) || IN_ARENA(a)) && n) {
         check_access((uintptr_t)a, 1, rw);
         if (n > 1)
             check_access((uintptr_t)a + n - 1, 1, rw);
@@ -1175,6 +1182,8 @@ static void *arena_alloc(size_t n, int zero) {
     else
         garbage_fill(p, n, 77 + G.nalloc);
     G.nalloc++;
+    if (G.nreg >= MAXREG)
+        G.reg_overflow = 1;
     if (G.nreg < MAXREG) {
         region_t *r = &G.reg[G.nreg++];
         r->lo = (uintptr_t)p;
@@ -1361,6 +1370,7 @@ EXPORT void sim_begin_run(void) {
     G.arena_off = 0;
     G.nalloc = G.nrealloc_moved = G.nrealloc_stay = G.nfree = 0;
     G.next_heap_id = 0;
+    G.reg_overflow = 0;
     G.viol_kind = 0;
     G.aborted = 0;
     G.in_call = 0;
